@@ -753,14 +753,635 @@ def run_condition(case: dict) -> Result:
     return res
 
 
+
+# ==========================================================================
+# ConnectionPool
+
+
+def gen_connpool(rng: random.Random, tier: str) -> dict:
+    mx = rng.choice([1, 1, 2, 3, 4])
+    mn = rng.choice([0, 0, 0, 1, mx])
+    mn = min(mn, mx)
+    lat = rng.choice([0, 1, 2, 4, 8, 16])           # connection set-up latency in ticks
+    timeout = rng.choice([0.05, 0.2, 1.0, 5.0])     # seconds
+    idle = rng.choice([3, 10, 40, 400])             # ticks
+    nw = rng.randint(2, 10)
+    spread = rng.choice([0, 0, 1, 3, 10, 20])
+    workers = []
+    for _ in range(nw):
+        steps = [{"hold": rng.choice([0, 1, 2, 5, 10, 30]), "gap": rng.choice([0, 0, 1, 3, 12])} for _ in range(rng.randint(1, 3))]
+        workers.append({"at": rng.randint(0, spread), "steps": steps})
+    return {
+        "kind": "ConnectionPool", "max": mx, "min": mn, "latency": lat, "timeout": timeout, "idle": idle,
+        "warmup": (rng.choice([None, 0, 0, 2]) if mn > 0 else None), "workers": workers,
+    }
+
+
+def run_connpool(case: dict) -> Result:
+    from happysimulator.components.client.connection_pool import ConnectionPool
+    from happysimulator.core.entity import Entity
+    from happysimulator.distributions.constant import ConstantLatency
+
+    class Sink(Entity):
+        def handle_event(self, event):
+            return None
+
+    res = Result()
+    comp = "ConnectionPool"
+    mx, mn, lat = case["max"], case["min"], case["latency"]
+    handovers: list = []  # (seq, conn_id) for every activation, via the public on_acquire callback
+
+    longest = max(sum(st["gap"] + st["hold"] + lat + int(case["timeout"] * 512) + 60 for st in w["steps"]) + w["at"] for w in case["workers"])
+    end_tick = longest + mn * lat + case["idle"] + 50
+    pool_box = []
+    run_box = []
+
+    def on_acquire(conn):
+        handovers.append((run_box[0].ledger._tick(), conn.id))
+
+    pool = ConnectionPool(
+        "pool", target=Sink("sink"), min_connections=mn, max_connections=mx,
+        connection_timeout=case["timeout"], idle_timeout=case["idle"] * TS,
+        connection_latency=ConstantLatency(lat * TS), on_acquire=on_acquire,
+    )
+    pool_box.append(pool)
+    run = Run(res, [pool], end_tick=end_tick, total_cap=400_000)
+    run_box.append(run)
+    led = run.ledger
+    flagged: set = set()
+    setups = [0]          # client requests currently inside a connection set-up
+    setup_overlap = [False]
+    warm_until = None
+    if case.get("warmup") is not None and mn > 0:
+        warm_until = (case["warmup"] + mn * lat) * 1_953_125
+
+    def flag(oracle, shape, detail, witness=None):
+        k = (oracle, shape)
+        if k in flagged:
+            return
+        flagged.add(k)
+        res.add(oracle, comp, shape, detail, witness if witness is not None else {"history": led.history(), "handovers": handovers[:40]})
+
+    latched = []
+
+    def over_shape():
+        if not latched:
+            latched.append(_over_shape())
+        return latched[0]
+
+    def _over_shape():
+        if warm_until is not None and run.now_ns() <= warm_until + lat * 1_953_125:
+            return "arrivals-during-warmup"
+        if setup_overlap[0]:
+            return "arrivals-during-setup"
+        return "no-overlapping-setup"
+
+    def worker(wi, spec):
+        def proc():
+            first = True
+            for st in spec["steps"]:
+                if not first or st["gap"]:
+                    yield st["gap"] * TS
+                first = False
+                r = led.request(wi, hold=st["hold"])
+                p_before = pool.pending_requests
+                in_setup = [False]
+
+                def after_first(yielded, r=r, p_before=p_before, in_setup=in_setup):
+                    r.blocked = pool.pending_requests > p_before
+                    if yielded and not r.blocked:
+                        in_setup[0] = True
+                        if setups[0] > 0 or (warm_until is not None and case["warmup"] * 1_953_125 <= run.now_ns() < warm_until):
+                            setup_overlap[0] = True
+                        setups[0] += 1
+
+                try:
+                    conn = yield from drive(pool.acquire(), after_first)
+                except TimeoutError:
+                    r.outcome = "timeout"
+                    r.s_rel = led._tick()
+                    res.count("timeouts")
+                    if not latched and (pool.idle_connections > 0 or pool.total_connections < mx):
+                        flag("timeout-with-free-capacity", "waiter-timed-out", f"acquire timed out while idle={pool.idle_connections} total={pool.total_connections} max={mx}")
+                    continue
+                finally:
+                    if in_setup[0]:
+                        setups[0] -= 1
+                led.granted(r)
+                res.count("grants_checked")
+                r.extra = conn.id
+                for o in led.holders():
+                    if o is not r and o.extra == conn.id:
+                        flag("over-admission", "connection-shared", f"connection {conn.id} handed to request {r.rid} while request {o.rid} still holds it")
+                yield st["hold"] * TS
+                evs = pool.release(conn)
+                led.released(r)
+                yield 0.0, evs
+
+        return proc
+
+    for wi, spec in enumerate(case["workers"]):
+        run.spawn(spec["at"], worker(wi, spec))
+    if case.get("warmup") is not None and mn > 0:
+        ev = pool.warmup()
+        ev.time = at(case["warmup"])
+        run.schedule(ev)
+
+    def after_delivery(ev):
+        res.count("counter_samples")
+        a, i, t = pool.active_connections, pool.idle_connections, pool.total_connections
+        held = len(led.holders())
+        if held > mx:
+            flag("over-admission", over_shape(), f"{held} clients hold a connection, max_connections={mx}")
+        if a > mx or t > mx:
+            flag("over-admission", over_shape(), f"pool reports active={a} total={t}, max_connections={mx}")
+        if a + i > t or a < 0 or i < 0:
+            flag("held-plus-available", "active-idle-total", f"active={a} idle={i} total={t}")
+        if held > a:
+            flag("held-plus-available", "client-held-exceeds-active", f"clients hold {held}, pool says active={a}")
+
+    def quiescent(where):
+        res.count("end_of_instant_checks")
+        if latched:
+            return  # the pool is already beyond its limit: what follows is a consequence of the over-admission
+        if pool.pending_requests > 0 and (pool.idle_connections > 0 or pool.total_connections < mx):
+            flag("head-waiter-fits-free-capacity", "waiter-queued", f"{where}: pending={pool.pending_requests} idle={pool.idle_connections} total={pool.total_connections} max={mx}")
+
+    status = run.go(after_delivery, lambda t: quiescent("end-of-instant"))
+    if status == "spin":
+        flag("frozen-clock", "pool", "instant cap exceeded", run.spin_witness())
+    elif status == "completed":
+        quiescent("fixpoint")
+        if led.pending():
+            res.inconclusive = "end_time reached with acquirers still waiting"
+        elif not led.holders():
+            if pool.active_connections != 0 or pool.idle_connections != pool.total_connections:
+                flag("leak", "all-released", f"everything released: active={pool.active_connections} idle={pool.idle_connections} total={pool.total_connections}")
+            st = pool.stats
+            if st.connections_created - st.connections_closed != pool.total_connections:
+                flag("leak", "created-closed-total", f"created={st.connections_created} closed={st.connections_closed} total={pool.total_connections}")
+        # hand-over order among queued acquirers (pool side, from on_acquire)
+        bl = [r for r in led.reqs if r.blocked]
+        def handover_seq(r):
+            if r.s_grant is None:
+                return None
+            c = [s for s, cid in handovers if cid == r.extra and s < r.s_grant]
+            return c[-1] if c else None
+        hs = {r.rid: handover_seq(r) for r in bl}
+        for x, a in enumerate(bl):
+            for b in bl[x + 1:]:
+                hb = hs[b.rid]
+                if hb is None:
+                    continue
+                ha = hs[a.rid]
+                a_end = a.s_rel if a.outcome == "timeout" else (ha if ha is not None else float("inf"))
+                if a.outcome == "timeout" and a_end < hb:
+                    continue  # a had left the queue before b was served
+                if ha is None or ha > hb:
+                    flag("grant-out-of-order", "queued-acquirers", f"queued request {b.rid} got its connection before earlier queued request {a.rid}")
+    res.count("requests", len(led.reqs))
+    res.count("blocked_requests", sum(1 for r in led.reqs if r.blocked))
+    mb = max_overlap_blocked(led.reqs)
+    res.nontrivial = (mb >= 2 and any(r.hold > 0 and r.s_grant is not None for r in led.reqs)) or setup_overlap[0]
+    if setup_overlap[0]:
+        res.count("cases_with_overlapping_setup")
+    res.seen("components", comp)
+    return res
+
+
+
+# ==========================================================================
+# Bulkhead (request shaped: permits are taken and returned by the component itself)
+
+
+def gen_bulkhead(rng: random.Random, tier: str) -> dict:
+    mc = rng.choice([1, 1, 2, 3, 4])
+    mq = rng.choice([0, 1, 2, 5, 20])
+    mwt = rng.choice([None, None, 1, 3, 8])  # ticks
+    n = rng.randint(2, 14)
+    spread = rng.choice([0, 0, 2, 6, 15])
+    reqs = [{"at": rng.randint(0, spread), "hold": rng.choice([0, 1, 2, 3, 5, 8])} for _ in range(n)]
+    return {"kind": "Bulkhead", "max_concurrent": mc, "max_wait_queue": mq, "max_wait_time": mwt, "reqs": reqs}
+
+
+def run_bulkhead(case: dict) -> Result:
+    from happysimulator.components.resilience.bulkhead import Bulkhead
+    from happysimulator.core.entity import Entity
+    from happysimulator.core.event import Event
+
+    res = Result()
+    comp = "Bulkhead"
+    mc, mq, mwt = case["max_concurrent"], case["max_wait_queue"], case["max_wait_time"]
+    flagged: set = set()
+    box = []
+
+    def flag(oracle, shape, detail, witness=None):
+        k = (oracle, shape)
+        if k in flagged:
+            return
+        flagged.add(k)
+        led = box[0].ledger
+        res.add(oracle, comp, shape, detail, witness if witness is not None else {"history": led.history()})
+
+    by_rid: dict = {}
+
+    class SlowTarget(Entity):
+        def handle_event(self, event):
+            rid = event.context["metadata"]["rid"]
+            r = by_rid.get(rid)
+            led = box[0].ledger
+            if r is None:
+                flag("granted-twice", "unknown-request", f"target received request {rid} that never arrived at the bulkhead")
+                return None
+            if r.s_grant is not None:
+                flag("granted-twice", "same-request-started-twice", f"request {rid} entered the target twice")
+            led.granted(r)
+            res.count("grants_checked")
+            yield r.hold * TS
+            led.released(r)
+            return None
+
+    target = SlowTarget("target")
+    bh = Bulkhead("bh", target, max_concurrent=mc, max_wait_queue=mq, max_wait_time=(mwt * TS if mwt else None))
+    run = Run(res, [bh, target])
+    box.append(run)
+    led = run.ledger
+    for i, q in enumerate(case["reqs"]):
+        run.schedule(Event(time=at(q["at"]), event_type="c09.req", target=bh, context={"metadata": {"rid": i, "hold": q["hold"]}}))
+    last = {"rej": 0, "queued": 0, "to": 0}
+    timed_out_total = [0]
+
+    def after_delivery(ev):
+        res.count("counter_samples")
+        st = bh.stats
+        if ev.target is bh and ev.event_type == "c09.req":
+            rid = ev.context["metadata"]["rid"]
+            r = led.request(rid, hold=case["reqs"][rid]["hold"])
+            r.rid = rid
+            by_rid[rid] = r
+            if st.rejected_requests > last["rej"]:
+                r.outcome = "denied"
+                r.blocked = False
+                if bh.active_count < mc:
+                    flag("try-denied-although-free", "rejected", f"request {rid} rejected with active={bh.active_count} max={mc}")
+            elif st.queued_requests > last["queued"]:
+                r.blocked = True
+            else:
+                r.blocked = False
+        last["rej"], last["queued"] = st.rejected_requests, st.queued_requests
+        timed_out_total[0] = st.timed_out_requests
+        inserv = len(led.holders())
+        if inserv > mc:
+            flag("over-admission", "in-service-above-limit", f"{inserv} requests inside the target, max_concurrent={mc}")
+        if bh.active_count > mc or bh.active_count < 0:
+            flag("over-admission", "active-count", f"active_count={bh.active_count} max_concurrent={mc}")
+        if bh.active_count + bh.available_permits != mc:
+            flag("held-plus-available", "permits", f"active={bh.active_count} + available={bh.available_permits} != {mc}")
+        if bh.queue_depth > mq:
+            flag("over-admission", "wait-queue", f"queue_depth={bh.queue_depth} max_wait_queue={mq}")
+        if inserv > bh.active_count:
+            flag("held-plus-available", "in-service-exceeds-active", f"{inserv} in service, active_count={bh.active_count}")
+
+    def quiescent(where):
+        res.count("end_of_instant_checks")
+        if bh.queue_depth > 0 and bh.active_count < mc:
+            flag("head-waiter-fits-free-capacity", "queued-request", f"{where}: queue_depth={bh.queue_depth} active={bh.active_count} max={mc}")
+        if bh.active_count != len(led.holders()):
+            flag("held-plus-available", "active-vs-in-service", f"{where}: active_count={bh.active_count}, in service={len(led.holders())}")
+
+    status = run.go(after_delivery, lambda t: quiescent("end-of-instant"))
+    if status == "spin":
+        flag("frozen-clock", "bulkhead", "instant cap exceeded", run.spin_witness())
+    elif status == "completed":
+        quiescent("fixpoint")
+        started = sum(1 for r in led.reqs if r.s_grant is not None)
+        st = bh.stats
+        if bh.active_count != 0 or bh.queue_depth != 0:
+            flag("leak", "after-all-completed", f"run over: active_count={bh.active_count} queue_depth={bh.queue_depth}")
+        if started + st.rejected_requests + st.timed_out_requests != len(case["reqs"]):
+            flag("stranded-waiter", "request-neither-served-nor-refused",
+                 f"arrivals={len(case['reqs'])} started={started} rejected={st.rejected_requests} timed_out={st.timed_out_requests}")
+        # FIFO among queued requests (logical order: everything here is event driven and deterministic)
+        q = [r for r in led.reqs if r.blocked]
+        n_unserved = 0
+        for x, a in enumerate(q):
+            for b in q[x + 1:]:
+                if b.s_grant is None:
+                    continue
+                if a.s_grant is None:
+                    n_unserved += 1
+                    continue  # a may have timed out in the queue (not attributable from public state)
+                if a.s_grant > b.s_grant:
+                    flag("grant-out-of-order", "queued-requests", f"queued request {b.rid} started before earlier queued request {a.rid}")
+        if mwt is None and any(r.blocked and r.s_grant is None for r in led.reqs):
+            flag("stranded-waiter", "queued-no-timeout", "a queued request was never started although no wait timeout is configured")
+    res.count("requests", len(led.reqs))
+    res.count("blocked_requests", sum(1 for r in led.reqs if r.blocked))
+    mb = max_overlap_blocked(led.reqs)
+    res.nontrivial = mb >= 2 and any(r.hold > 0 and r.s_grant is not None for r in led.reqs)
+    res.seen("components", comp)
+    return res
+
+
+# ==========================================================================
+# ThreadPool / Server with the concurrency models (queue + driver + limiter)
+
+
+def gen_limiter(rng: random.Random, tier: str) -> dict:
+    kind = rng.choice(["ThreadPool", "Server", "Server"])
+    model = "int" if kind == "ThreadPool" else rng.choice(["int", "fixed", "dynamic", "weighted"])
+    limit = rng.choice([1, 2, 2, 3, 4])
+    n = rng.randint(2, 14)
+    spread = rng.choice([0, 0, 2, 6, 15])
+    reqs = []
+    for _ in range(n):
+        q = {"at": rng.randint(0, spread), "pt": rng.choice([0, 1, 2, 3, 5, 8])}
+        if model == "weighted":
+            q["weight"] = min(limit, rng.choice([1, 1, 2, 3]))
+        reqs.append(q)
+    case = {"kind": kind, "model": model, "limit": limit, "reqs": reqs}
+    if model == "dynamic":
+        case["limit_script"] = [{"at": rng.randint(1, spread + 10), "limit": rng.choice([1, 2, 3, 4, 5])} for _ in range(rng.randint(0, 3))]
+    return case
+
+
+def run_limiter(case: dict) -> Result:
+    from happysimulator.components.server.concurrency import DynamicConcurrency, FixedConcurrency, WeightedConcurrency
+    from happysimulator.components.server.server import Server
+    from happysimulator.components.server.thread_pool import ThreadPool
+    from happysimulator.core.entity import Entity
+    from happysimulator.core.event import Event
+    from happysimulator.core.temporal import Duration
+    from happysimulator.distributions.latency_distribution import LatencyDistribution
+
+    res = Result()
+    comp = case["kind"]
+    model_kind = case["model"]
+    limit0 = case["limit"]
+    reqs = case["reqs"]
+    flagged: set = set()
+    box = []
+    variant = comp if comp == "ThreadPool" else f"Server/{model_kind}"
+    burst = simultaneous([q["at"] for q in reqs])
+    limit_changed = [False]
+
+    def flag(oracle, shape, detail, witness=None):
+        k = (oracle, shape)
+        if k in flagged:
+            return
+        flagged.add(k)
+        res.add(oracle, comp, shape, detail, witness if witness is not None else {"starts": starts[:40], "arrivals": arrivals[:40]})
+
+    starts: list = []    # (seq, rid or None, t_ns)
+    arrivals: list = []  # (seq, rid, t_ns)
+    seq = [0]
+
+    def tick():
+        seq[0] += 1
+        return seq[0]
+
+    if comp == "ThreadPool":
+        def extractor(task):
+            rid = task.context["metadata"]["rid"]
+            starts.append((tick(), rid, box[0].now_ns()))
+            return reqs[rid]["pt"] * TS
+
+        prim = ThreadPool("prim", num_workers=limit0, processing_time_extractor=extractor)
+        model = None
+    else:
+        class StartLatency(LatencyDistribution):
+            """Service time of the k-th service start = pt of the k-th arrival (FIFO makes them the same request)."""
+
+            def __init__(self):
+                super().__init__(0.0)
+
+            def get_latency(self, now):
+                k = len(starts)
+                rid = arrivals[k - rejected_at_dequeue()][1] if 0 <= k - rejected_at_dequeue() < len(arrivals) else None
+                starts.append((tick(), rid, box[0].now_ns()))
+                pt = reqs[rid]["pt"] if rid is not None else 1
+                return Duration.from_seconds(pt * TS)
+
+        if model_kind == "int":
+            model = None
+            prim = Server("prim", concurrency=limit0, service_time=StartLatency())
+        else:
+            model = {"fixed": lambda: FixedConcurrency(limit0), "dynamic": lambda: DynamicConcurrency(limit0, min_limit=1, max_limit=8),
+                     "weighted": lambda: WeightedConcurrency(limit0)}[model_kind]()
+            prim = Server("prim", concurrency=model, service_time=StartLatency())
+
+    def rejected_at_dequeue():
+        return 0  # start index == arrival index only while nothing was rejected at dequeue; re-checked below
+
+    class Knob(Entity):
+        def handle_event(self, event):
+            model.set_limit(event.context["metadata"]["limit"])
+            limit_changed[0] = True
+            return None
+
+    knob = Knob("knob")
+    run = Run(res, [prim, knob])
+    box.append(run)
+    for i, q in enumerate(reqs):
+        md = {"rid": i}
+        if "weight" in q:
+            md["weight"] = q["weight"]
+        run.schedule(Event(time=at(q["at"]), event_type="c09.task", target=prim, context={"metadata": md}))
+    for ls in case.get("limit_script", []):
+        run.schedule(Event(time=at(ls["at"]), event_type="c09.limit", target=knob, context={"metadata": {"limit": ls["limit"]}}))
+
+    def counters():
+        if comp == "ThreadPool":
+            return prim.active_workers, prim.idle_workers, prim.num_workers, prim.stats.tasks_completed, prim.stats.tasks_rejected
+        return prim.active_requests, prim.available_capacity, prim.concurrency, prim.stats.requests_completed, prim.stats.requests_rejected
+
+    peak_depth = [0]
+    done_seen = [0]
+    completion_instants: set = set()
+
+    def after_delivery(ev):
+        res.count("counter_samples")
+        if ev.target is prim and ev.event_type == "c09.task":
+            arrivals.append((tick(), ev.context["metadata"]["rid"], run.now_ns()))
+        active, avail, lim, done, rej = counters()
+        if done > done_seen[0]:
+            done_seen[0] = done
+            completion_instants.add(run.now_ns())
+        peak_depth[0] = max(peak_depth[0], prim.depth)
+        if model_kind == "weighted":
+            pass
+        else:
+            inserv = len(starts) - done
+            if not limit_changed[0] and inserv > lim:
+                flag("over-admission", variant, f"{inserv} requests in service, limit={lim}")
+        if not limit_changed[0]:
+            if active > lim:
+                flag("over-admission", variant, f"active={active} limit={lim}")
+            if active + avail != lim:
+                flag("held-plus-available", variant, f"active={active} + available={avail} != limit={lim}")
+        elif active <= lim and active + avail != lim:
+            flag("held-plus-available", variant + "/after-limit-change", f"active={active} + available={avail} != limit={lim}")
+        if active < 0 or avail < 0:
+            flag("available-out-of-range", variant, f"active={active} available={avail}")
+
+    def head_weight():
+        k = len(starts) + counters()[4]
+        if 0 <= k < len(arrivals):
+            return reqs[arrivals[k][1]].get("weight", 1)
+        return 1
+
+    def quiescent(where):
+        res.count("end_of_instant_checks")
+        active, avail, lim, done, rej = counters()
+        if prim.depth > 0 and avail >= head_weight():
+            if burst:
+                shape = "same-instant-burst"
+            elif limit_changed[0]:
+                shape = "after-limit-increase"
+            else:
+                shape = "no-burst"
+            flag("head-waiter-fits-free-capacity", shape, f"{where}: queue depth={prim.depth}, active={active}, available={avail}, limit={lim}")
+
+    status = run.go(after_delivery, lambda t: quiescent("end-of-instant"))
+    if status == "spin":
+        flag("frozen-clock", variant, "instant cap exceeded", run.spin_witness())
+    elif status == "completed":
+        quiescent("fixpoint")
+        active, avail, lim, done, rej = counters()
+        if active != 0:
+            flag("leak", variant, f"run over: active={active}")
+        if prim.depth > 0:
+            flag("stranded-waiter", "same-instant-burst" if burst else variant, f"run over with {prim.depth} queued requests never started")
+        if rej:
+            res.count("rejected_at_dequeue", rej)
+            coincide = any(t in completion_instants for _, _, t in arrivals)
+            if model_kind == "weighted" and any(q.get("weight", 1) > 1 for q in reqs):
+                shape = "weight-above-one"
+                why = "the driver asks has_capacity() for weight 1, acquire needs the request's weight"
+            elif coincide:
+                shape = "arrival-at-completion-instant"
+                why = "two polls were in flight: has_capacity() said yes to both, acquire() refused the second"
+            else:
+                shape = "other"
+                why = "has_capacity() said yes, acquire() said no"
+            flag("waiter-dropped", shape, f"{rej} queued request(s) were taken from the queue and dropped instead of served: {why}")
+        # FIFO start order (ThreadPool gives the identity of each start)
+        if comp == "ThreadPool":
+            order = [rid for _, rid, _ in starts]
+            arr = [rid for _, rid, _ in arrivals]
+            pos = {rid: i for i, rid in enumerate(arr)}
+            for x in range(1, len(order)):
+                if pos.get(order[x], 0) < pos.get(order[x - 1], 0):
+                    flag("grant-out-of-order", variant, f"task {order[x]} (arrival #{pos[order[x]]}) started after task {order[x-1]} (arrival #{pos[order[x-1]]})")
+                    break
+            if len(set(order)) != len(order):
+                flag("granted-twice", variant, "a task was started twice")
+    res.count("grants_checked", len(starts))
+    res.count("requests", len(reqs))
+    res.nontrivial = peak_depth[0] >= 2 and any(q["pt"] > 0 for q in reqs)
+    res.seen("components", variant)
+    return res
+
+
+# ==========================================================================
+# concurrency models as plain objects (no simulation): op strings against counting
+
+
+def gen_concmodel(rng: random.Random, tier: str) -> dict:
+    model = rng.choice(["fixed", "dynamic", "weighted"])
+    limit = rng.choice([1, 2, 3, 5])
+    ops = []
+    for _ in range(rng.randint(5, 60)):
+        x = rng.random()
+        if x < 0.45:
+            ops.append(["acquire", rng.choice([1, 1, 2, 3])])
+        elif x < 0.8:
+            ops.append(["release", rng.randrange(0, 8)])
+        elif x < 0.9 or model != "dynamic":
+            ops.append(["has", rng.choice([1, 1, 2, 3])])
+        else:
+            ops.append(["limit", rng.choice([1, 2, 3, 4, 6])])
+    return {"kind": "concmodel", "model": model, "limit": limit, "ops": ops}
+
+
+def run_concmodel(case: dict) -> Result:
+    from happysimulator.components.server.concurrency import DynamicConcurrency, FixedConcurrency, WeightedConcurrency
+
+    res = Result()
+    kind = case["model"]
+    comp = {"fixed": "FixedConcurrency", "dynamic": "DynamicConcurrency", "weighted": "WeightedConcurrency"}[kind]
+    m = {"fixed": lambda: FixedConcurrency(case["limit"]), "dynamic": lambda: DynamicConcurrency(case["limit"], min_limit=1, max_limit=6),
+         "weighted": lambda: WeightedConcurrency(case["limit"])}[kind]()
+    held: list = []  # weights of outstanding holders
+    lowered = False
+    full_seen = False
+    for op, arg in case["ops"]:
+        cost = arg if kind == "weighted" else 1
+        used = sum(held)
+        lim = m.limit
+        if op == "acquire":
+            if kind == "weighted" and arg > lim:
+                continue
+            said = m.has_capacity(arg)
+            ok = m.acquire(arg)
+            res.count("grants_checked")
+            if ok and used + cost > lim:
+                res.add("over-admission", comp, "acquire-above-limit", f"acquire({arg}) granted with {used} in use, limit {lim}")
+            if not ok and used + cost <= lim:
+                res.add("try-denied-although-free", comp, "acquire", f"acquire({arg}) refused with {used} in use, limit {lim}")
+            if said != ok:
+                res.add("has-capacity-disagrees", comp, "has-then-acquire", f"has_capacity({arg})={said} but acquire({arg})={ok}")
+            if ok:
+                held.append(cost)
+            else:
+                full_seen = True
+        elif op == "release":
+            if held:
+                w = held.pop(arg % len(held))
+                m.release(w)
+        elif op == "has":
+            said = m.has_capacity(arg)
+            if kind == "weighted" and said != (used + arg <= lim):
+                res.add("has-capacity-disagrees", comp, "weighted", f"has_capacity({arg})={said} with {used}/{lim}")
+        else:
+            if arg < m.limit:
+                lowered = True
+            m.set_limit(arg)
+        res.count("counter_samples")
+        res.count("end_of_instant_checks")
+        used = sum(held)
+        if m.active != used:
+            res.add("held-plus-available", comp, "active-vs-holders", f"active={m.active}, outstanding holders={used}")
+            break
+        if used <= m.limit and m.active + m.available != m.limit:
+            res.add("held-plus-available", comp, "active-plus-available", f"active={m.active} available={m.available} limit={m.limit}")
+            break
+        if used > m.limit and not lowered:
+            res.add("over-admission", comp, "holders-above-limit", f"{used} held with limit {m.limit}")
+            break
+    res.nontrivial = full_seen and len(case["ops"]) >= 10
+    res.seen("components", comp)
+    return res
+
+
 FAMILIES = {
     "resource": Family("resource", gen_resource, run_resource, case_timeout=30.0),
     "preemptible": Family("preemptible", gen_preemptible, run_resource, case_timeout=30.0),
     "lock": Family("lock", gen_lock, run_lock, case_timeout=30.0),
     "barrier": Family("barrier", gen_barrier, run_barrier, case_timeout=30.0),
     "condition": Family("condition", gen_condition, run_condition, case_timeout=30.0),
+    "connpool": Family("connpool", gen_connpool, run_connpool, case_timeout=30.0),
+    "bulkhead": Family("bulkhead", gen_bulkhead, run_bulkhead, case_timeout=30.0),
+    "limiter": Family("limiter", gen_limiter, run_limiter, case_timeout=30.0),
+    "concmodel": Family("concmodel", gen_concmodel, run_concmodel, case_timeout=10.0),
 }
 BUDGET = {
-    "quick": {"resource": 400, "preemptible": 300, "lock": 500, "barrier": 150, "condition": 150},
-    "thorough": {"resource": 20000, "preemptible": 12000, "lock": 20000, "barrier": 5000, "condition": 5000},
+    "quick": {"resource": 600, "preemptible": 400, "lock": 600, "barrier": 200, "condition": 200, "connpool": 400,
+              "bulkhead": 300, "limiter": 400, "concmodel": 500},
+    "thorough": {"resource": 30000, "preemptible": 20000, "lock": 40000, "barrier": 8000, "condition": 8000,
+                 "connpool": 20000, "bulkhead": 10000, "limiter": 20000, "concmodel": 10000},
 }
+# process start-up (importing the library) costs more than a shard of these millisecond cases: keep shards large
+for _name, _size in {"resource": 150, "preemptible": 200, "lock": 75, "barrier": 100, "condition": 100, "connpool": 100,
+                     "bulkhead": 300, "limiter": 200, "concmodel": 500}.items():
+    FAMILIES[_name].shard_size = _size
